@@ -395,6 +395,77 @@ def actions_reach(ai: int, ns: int, svc_state: int, app_state: int, nic_en: bool
             check(before == after, f"action {name} was refused but changed the state")
 
 
+NEWFILE_KINDS = ["forced_new", "forced_recreate", "plain_new", "copied", "copied_over"]
+NEWFILE_VERBS = ["corrupt", "scan", "delete"]
+
+
+def new_file_routes(ki: int, vi: int, ns: int):
+    """Routes of files that come into being during the episode: a file created through the create request with
+    force=True (a new name, or the name of a file deleted before), created without force, or produced by
+    FileSystem.copy_file (what a database restore does; also over an existing name). A request that then names the live
+    file is routed to THAT file: it is never 'unreachable' while the node is ON, it is answered success for the verbs that
+    apply to a healthy live file, and its effect shows on the file it names and on no other file."""
+    from primaite.simulator.file_system.file_system_item_abc import FileSystemItemHealthStatus as FH
+
+    assume(all_of(rng(ki, 0, len(NEWFILE_KINDS) - 1), rng(vi, 0, len(NEWFILE_VERBS) - 1), rng(ns, 0, 1)))
+    kind = pick(NEWFILE_KINDS, ki)
+    verb = pick(NEWFILE_VERBS, vi)
+    st = pick(["ON", "OFF"], ns)
+    with concrete():
+        game = _game("switched")
+        sim = game.simulation
+        node = sim.network.get_node_by_hostname("client_1")
+        fs = node.file_system
+        base = ["network", "node", "client_1", "file_system"]
+        if kind == "forced_new":
+            r = sim.apply_request(base + ["create", "file", "docs", "n.txt", True])
+            folder, name = "docs", "n.txt"
+        elif kind == "forced_recreate":
+            fs.delete_file(folder_name="docs", file_name="a.txt")
+            r = sim.apply_request(base + ["create", "file", "docs", "a.txt", True])
+            folder, name = "docs", "a.txt"
+        elif kind == "plain_new":
+            r = sim.apply_request(base + ["create", "file", "docs", "n.txt", False])
+            folder, name = "docs", "n.txt"
+        elif kind == "copied":
+            fs.copy_file(src_folder_name="docs", src_file_name="a.txt", dst_folder_name="backup")
+            r = None
+            folder, name = "backup", "a.txt"
+        else:
+            fs.create_file(file_name="a.txt", folder_name="backup")
+            fs.delete_file(folder_name="backup", file_name="a.txt")
+            fs.copy_file(src_folder_name="docs", src_file_name="a.txt", dst_folder_name="backup")
+            r = None
+            folder, name = "backup", "a.txt"
+        if r is not None and r.status != "success":
+            fail(f"harness history ({kind}): the create request answered {r.status}")
+        target = fs.get_file(folder_name=folder, file_name=name)
+        if target is None:
+            fail(f"harness history ({kind}): {folder}/{name} does not exist afterwards")
+        others = [f for F in list(fs.folders.values()) for f in list(F.files.values()) + list(F.deleted_files.values()) if f is not target]
+        before_others = [(f.uuid, f.health_status.name, bool(f.deleted), f.num_access) for f in others]
+        _set_node_state(node, st)
+    request = base + (["delete", "file", folder, name] if verb == "delete" else ["folder", folder, "file", name, verb])
+    try:
+        resp = sim.apply_request(request)
+    except Exception as e:
+        fail(f"apply_request({request}) raised {type(e).__name__}: {e}")
+    cover("new_file_request")
+    check(resp is not None and resp.status in STATUSES, f"request {request} not answered with a documented status")
+    if st != "ON":
+        check(resp.status == "failure", lambda: f"request {request} on an OFF node answered {resp.status}")
+        return
+    check(resp.status != "unreachable", lambda: f"request {request} names the live file produced by '{kind}' but is unreachable")
+    check(resp.status == "success", lambda: f"request {request} on the live, healthy file produced by '{kind}' answered {resp.status}: {str(resp.data)[:120]}")
+    with concrete():
+        after_others = [(f.uuid, f.health_status.name, bool(f.deleted), f.num_access) for f in others]
+    check(before_others == after_others, lambda: f"request {request} changed ANOTHER file than the one it names ({kind}): {[b for b, a in zip(before_others, after_others) if a != b][:2]}")
+    if verb == "corrupt":
+        check(target.health_status == FH.CORRUPT, lambda: f"request {request} answered success but the named file is {target.health_status.name} ({kind})")
+    elif verb == "delete":
+        check(bool(target.deleted) and fs.get_file(folder_name=folder, file_name=name) is None, lambda: f"request {request} answered success but the named file is still live ({kind})")
+
+
 RT_APPS = ["dos-bot", "ransomware-script", "c2-beacon", "c2-server", "nmap"]
 
 
@@ -536,6 +607,13 @@ HARNESSES = {
             "quick": "all argument-free/templated leaf paths of client_1; node ON/OFF; unmodified, misspelt at depth 3/4, truncated to 3..7 elements; all service and application states",
             "thorough": "both topologies, all 4 power states, every mutation position and truncation length",
         },
+    },
+    "new_file_routes": {
+        "fn": new_file_routes,
+        "quick": [{"fixed": {}, "timeout": 280}],
+        "thorough": [{"fixed": {}, "timeout": 600}],
+        "cover": ["new_file_request"],
+        "bounds": "5 ways a file comes into being during the episode (create request with / without force, forced re-creation of a deleted name, copy_file to a new name / over a deleted name) x 3 verbs (corrupt, scan, delete) x node ON / OFF",
     },
     "rt_routes": {
         "fn": rt_routes,
